@@ -50,6 +50,8 @@ where
             if S::IS_NATIVE_LAYOUT {
                 // Bulk read: memory layout matches T, single memcpy from mmap.
                 let reader = self.create_reader();
+                #[cfg(anydb_verif)]
+                crate::verif::access("raw:read_into_native", &reader, HEADER_OFFSET + from * Self::SIZE_OF_T, (stored_to - from) * Self::SIZE_OF_T);
                 let src = unsafe {
                     std::slice::from_raw_parts(
                         reader
